@@ -357,6 +357,29 @@ package vm
 
 //@ func (*stateObject).SetBalance
 //@   requires so != nil && so.stateDB != nil && so.stateDB.journal != nil && so.account != nil && so.account.Coins.Amount != nil
+//@   modifies so.account.Coins, *so.stateDB.journal, elems(so.stateDB.journal.entries), elems(so.stateDB.journal.dirties), mapof(so.stateDB.journal.addressToJournalIndex)
 //@   ensures len(so.stateDB.journal.entries) == old(len(so.stateDB.journal.entries)) + 1   // C17.journal-prev
 //@   ensures dyntype(so.stateDB.journal.entries[old(len(so.stateDB.journal.entries))], "balanceChange") && big(unbox(so.stateDB.journal.entries[old(len(so.stateDB.journal.entries))], "balanceChange").prev) == old(big(so.account.Coins.Amount))   // C17.journal-prev
 //@   ensures so.account.Coins.Amount == amount   // C17.journal-prev
+
+// ---------------------------------------------------------------- C17.create-keeps-balance: (re)creating an account keeps the funds already at its address
+// "credits the transferred value to the recipient": value sent to an address earlier in the same transaction must survive a
+// contract creation at that address (CreateAccount replaces the live state object by a new one). createObject - which
+// looks the previous object up in the cache / through the keeper, builds the new one and files it - is ASSUMED here
+// with ghost outputs naming its two results; CreateAccount's BODY is verified against it: whenever there was a live
+// previous object, the object that replaces it holds the same balance.
+//@ model lastCreated(*CommitStateDB) *stateObject
+//@ model lastPrev(*CommitStateDB) *stateObject
+//@ assume func (*CommitStateDB).createObject
+//@   requires s != nil
+//@   modifies *s, elems(s.stateObjects), mapof(s.addressToObjectIndex), *s.journal, elems(s.journal.entries), elems(s.journal.dirties), mapof(s.journal.addressToJournalIndex), lastCreated(s), lastPrev(s)
+//@   ensures lastCreated(s) == newObj && lastPrev(s) == prevObj
+// (A-OLT: the OLT currency is registered at genesis, so the keeper can always build the account: newObj != nil)
+//@   ensures newObj != nil
+//@   ensures newObj != nil ==> fresh(newObj) && newObj.stateDB == s && newObj.account != nil && fresh(newObj.account) && newObj.account.Coins.Amount != nil
+//@   ensures prevObj != nil ==> prevObj != newObj && allocated(prevObj) && prevObj.account != nil && prevObj.account.Coins.Amount != nil && prevObj.account != newObj.account
+//@   ensures s.journal == old(s.journal)
+
+//@ func (*CommitStateDB).CreateAccount
+//@   requires s != nil && s.journal != nil
+//@   ensures lastPrev(s) != nil && lastCreated(s) != nil ==> lastCreated(s).account.Coins.Amount != nil && big(lastCreated(s).account.Coins.Amount) == big(lastPrev(s).account.Coins.Amount)   // C17.create-keeps-balance
